@@ -209,7 +209,7 @@ CmpRes(name, p, q) ==
 \* == != < <= > >=  (!= is the rewritten ==)                      (255-282)
 Cmp(name, a, b) ==
   /\ name \in CmpNames /\ Live(a) /\ Live(b)
-  /\ name \in {"Eq", "Ne"} \/ SameArray(w[a].p, w[b].p)
+  /\ IF name \in {"Eq", "Ne"} THEN TRUE ELSE SameArray(w[a].p, w[b].p)
   /\ ReadOnly(A(name, a, b, 0, 0, <<B2I(CmpRes(name, w[a].p, w[b].p))>>))
 
 \* *p, p[n], p.operator->()                                      (135-150)
